@@ -3014,10 +3014,13 @@ package goatlang
 //@ -- an if / else-if chain nests: every part of a link (init, condition, block, else) is appended
 //@ -- to that link, and the next `if` becomes the else child of the current link
 //@ func ifNud
-//@   property C06 C07
+//@   property C06 C07 C19
 //@   requires p != nil && t != nil
 //@   modifies *
 //@   callsite#link (*token).Append: arg_t == t
+//@   -- the condition of an if is an expression whose value is needed: only an expression that is
+//@   -- followed by ";" (the init clause) may be turned into a statement
+//@   callsite#initonly asStatement: p.Token != nil && p.Token.Symbol == ";"
 //@   ensures#top result == old(t)
 //@ func ifNud loop 0
 //@   invariant top == old(t) && p != nil
